@@ -688,6 +688,7 @@ void Run::process_ready(int chan, int subset_sel, bool skip_non_fd) {
     }
     if (subset_sel > 0 && ev.size() > 1) { ares_fd_events_t one = ev[(size_t)(subset_sel - 1) % ev.size()]; ev.clear(); ev.push_back(one); note("process_subset"); }
     if (!ev.empty()) note("process_with_events");
+    proc_calls.push_back({W.seq, W.now_us});
     ares_process_fds(c.ch, ev.empty() ? nullptr : ev.data(), ev.size(), skip_non_fd ? ARES_PROCESS_FLAG_SKIP_NON_FD : ARES_PROCESS_FLAG_NONE);
   } else if (style == 1) {
     fd_set rs, ws, rr, wr;
@@ -701,6 +702,7 @@ void Run::process_ready(int chan, int subset_sel, bool skip_non_fd) {
       if (FD_ISSET(fd, &ws) && W.writable(*v)) { FD_SET(fd, &wr); any++; }
     }
     if (any) note("process_with_events");
+    proc_calls.push_back({W.seq, W.now_us});
     ares_process(c.ch, &rr, &wr);
   } else {
     ares_socket_t socks[ARES_GETSOCK_MAXNUM];
@@ -733,10 +735,11 @@ void Run::process_ready(int chan, int subset_sel, bool skip_non_fd) {
       VFd *v = W.get(t.first != ARES_SOCKET_BAD ? t.first : t.second);
       if (!v || !v->open) continue;
       any = true;
+      proc_calls.push_back({W.seq, W.now_us});
       ares_process_fd(c.ch, t.first, t.second);
     }
     if (any) note("process_with_events");
-    else ares_process_fd(c.ch, ARES_SOCKET_BAD, ARES_SOCKET_BAD);
+    else { proc_calls.push_back({W.seq, W.now_us}); ares_process_fd(c.ch, ARES_SOCKET_BAD, ARES_SOCKET_BAD); }
   }
 }
 
